@@ -1604,6 +1604,9 @@ pub fn c08(args: &Args) -> Report {
         vec![ROp::Lookup(D::Root, 5), ROp::Lookup(D::Dd, 0), ROp::Unlink(5), ROp::Forget(0, 0), ROp::Lookup(D::Dd, 0), ROp::Forget(0, 3)],
         // a new file gets the recycled host inode number of a deleted, still referenced one; it is forgotten and looked up again
         vec![ROp::Mknod(1), ROp::Unlink(1), ROp::Mknod(1), ROp::Forget(1, 1), ROp::Lookup(D::Root, 1), ROp::Forget(1, 1), ROp::Forget(0, 1), ROp::Lookup(D::Root, 1)],
+        // the host inode number is recycled twice while the first file is still referenced: the second holder is
+        // forgotten and deleted before the third appears; then the first one is forgotten
+        vec![ROp::Mknod(1), ROp::Unlink(1), ROp::Mknod(1), ROp::Forget(1, 1), ROp::Unlink(1), ROp::Mknod(1), ROp::Getattr(0), ROp::Forget(0, 1), ROp::Getattr(2), ROp::Lookup(D::Root, 1)],
     ];
     for cfg in ext4.iter().chain(cfgs.iter()) {
         for t in &targeted {
